@@ -395,7 +395,8 @@ def convNumber (src : Point) (p : SPoint) : Except String SPoint :=
   | 0 => .ok { p with value := .none }
   | _ => .error "unsupported number datapoint value type"
 
-/-- BaseOtlpToStef.ConvertHistogram -/
+/-- BaseOtlpToStef.ConvertHistogram (a point with no bucket counts and no bounds is accepted since
+    repo commit 9c5d1f7; any other length mismatch is rejected) -/
 def convHistogram (src : Point) (p : SPoint) : Except String SPoint :=
   let p := { p with ts := src.ts, start := src.start }
   if flagged src then .ok { p with value := .none } else
@@ -404,7 +405,7 @@ def convHistogram (src : Point) (p : SPoint) : Except String SPoint :=
                     sum := setOptF h.sum (optOf src.hasSum src.sum),
                     min := setOptF h.min (optOf src.hasMin src.min),
                     max := setOptF h.max (optOf src.hasMax src.max) }
-  if src.buckets.length != src.bounds.length + 1 then .error "invalid histogram" else
+  if !(src.buckets.isEmpty && src.bounds.isEmpty) && src.buckets.length != src.bounds.length + 1 then .error "invalid histogram" else
   .ok { p with value := .hist { h with buckets := src.buckets } }
 
 /-- BaseOtlpToStef.ConvertExpHistogram -/
